@@ -236,8 +236,8 @@ def snapOf (s : DS) : Snap :=
 
 def snapP : P Snap := do
   let ret ← nat; let running ← bool; let lst ← bool; let addr ← bool
-  let counter ← nat; let closes ← nat; let deadlines ← nat
-  pure { ret, running, lst, addr, counter := Int.ofNat counter, closes, deadlines }
+  let counter ← int; let closes ← nat; let deadlines ← nat
+  pure { ret, running, lst, addr, counter := counter, closes, deadlines }
 
 def snapDiff (sock : Bool) (e o : Snap) : Option String :=
   if e.ret != o.ret then some s!"return-value(model={e.ret},observed={o.ret})"
